@@ -802,6 +802,7 @@ func (tree *MutableTree) SaveVersion() ([]byte, int64, error) {
 	if err := tree.ndb.Commit(); err != nil {
 		return nil, version, err
 	}
+	verifYield("SaveVersion:after-ndb-commit")
 
 	tree.ndb.resetLatestVersion(version)
 	tree.version = version
